@@ -559,6 +559,14 @@ func (l *Ledger) ConfirmBlock(block *pb.InternalBlock, isRoot bool) ConfirmStatu
 	blkTimer := timer.NewXTimer()
 	l.xlog.Info("start to confirm block", "blockid", utils.F(block.Blockid), "txCount", len(block.Transactions))
 	var confirmStatus ConfirmStatus
+	// a refused block must leave no trace: by the time a later check fails,
+	// saveBlock and handleFork have already changed the cached headers
+	defer func() {
+		if !confirmStatus.Succ {
+			l.blkHeaderCache = cache.NewLRUCache(BlockCacheSize)
+			l.blockCache = cache.NewLRUCache(BlockCacheSize)
+		}
+	}()
 	dummyTransactions := []*pb.Transaction{}
 	realTransactions := block.Transactions // 真正的交易转存到局部变量
 	block.Transactions = dummyTransactions // block表不保存transaction详情
